@@ -72,7 +72,7 @@ def generate(seed: int, tier: str) -> Dict[str, Any]:
             cp["owner"] = src.get("owner") if r.chance(0.33) else r.choice([o for o in others if o != src.get("owner")] or others)
             cp["ts"] = E.iso_from_ms(E.T0_MS - 1000).replace("+00:00", "Z")
             cp["importance"] = 1.0
-            cp["text"] = " ".join(r.sample(E.VOCAB, 2))
+            cp["text"] = " ".join(r.sample(E.VOCAB, 2)) + " (v%d)" % (len(world["episodes"]) + 1)   # never the text of another copy
             cp["vec"] = "text"
             world["episodes"].append(cp)
     if r.chance(0.12):
@@ -221,8 +221,18 @@ def execute(p: Dict[str, Any]) -> Dict[str, Any]:
                     if xo is not None:
                         cands = [e for e in idx._eps if str(e["id"]) == str(x.id) and str(e.get("owner")) == str(xo)]
                         same_text = [e for e in cands if str(e.get("text", "")) == str(getattr(x, "text", ""))]
-                        if same_text or cands:
-                            eps[str(x.id)] = (same_text or cands)[0]
+                        pool = same_text or cands
+                        if len(pool) > 1 and fresh and enc.last is not None:
+                            # copies that agree in id, owner and text: the index returns the best-scoring one
+                            def _sc(e, _q=enc.last[1]):
+                                v = e.get("vec_full")
+                                if v is None:
+                                    return float("-inf")
+                                s = _cos(_q, v)
+                                return s if s == s else float("-inf")
+                            pool = sorted(pool, key=lambda e: -_sc(e))
+                        if pool:
+                            eps[str(x.id)] = pool[0]
                 ids = [str(x.id) for x in res.retrieved]
                 ctxs = "agent=%s text=%r scope=%s k=%d thr=%s tiers=%s served_from_cache=%s" % (
                     ctx.agent_id, text, scope, k, thr, cfg_t2.get("tiers"), not fresh)
